@@ -167,3 +167,106 @@ Definition mon_negotiate (c : cfg) (tr : trace) : list failure :=
           flat_map (fun x => match x with (a, id, rev) => if (rev =? r)%Z then [] else fl 1105 a id rev end) news
       end
   end.
+
+(* ---------- receiver window: the Recvq model in lock step with the real receiver ----------
+     611 an overrunning frame did not fail the stream with ResourceExhausted (or a frame within the window did)
+     612 credit returned differs from the size of the item the model dequeues next *)
+From GT Require Import Recvq.
+
+Definition nid (x : N) : N := x.
+Record ostream := mkO { o_key : N * Z; o_q : rq N; o_live : bool }.
+Record ostate := mkOs { os_streams : list ostream; os_q : list (N * (Z * fkind)); os_fails : list failure; os_dead : bool }.
+
+Fixpoint oget (k : N * Z) (l : list ostream) : option ostream :=
+  match l with [] => None | o :: r => if key_eqb k (o_key o) then Some o else oget k r end.
+Fixpoint oset (o : ostream) (l : list ostream) : list ostream :=
+  match l with [] => [o] | x :: r => if key_eqb (o_key o) (o_key x) then o :: r else x :: oset o r end.
+
+(* drop zero-size items at the head: dequeuing them returns no credit and is invisible *)
+Fixpoint drop_zeros (fuel : nat) (q : rq N) : rq N :=
+  match fuel with
+  | O => q
+  | S k => match rq_items q with
+           | 0 :: _ => drop_zeros k (fst (rq_dequeue nid q))
+           | _ => q
+           end
+  end.
+
+Definition closed_with (code : N) (act : N) (t : N) (id : Z) (tr : trace) : bool :=
+  existsb (fun e => match e with
+                    | (a, Emit S2C t' id' (KClose st _) _) => N.eqb a act && N.eqb t t' && Z.eqb id id' && is_code st code
+                    | _ => false end) tr.
+
+Definition overrun_step (tr : trace) (s : ostate) (e : N * ev) : ostate :=
+  let '(act, e) := e in
+  match e with
+  | Emit C2S t id k true => mkOs (os_streams s) (os_q s ++ [(t, (id, k))]) (os_fails s) (os_dead s)
+  | Stim StFail _ _ _ | Stim StCtxEnd _ _ _ | Stim StStop _ _ _ | ServeRet _ _ _ | NetSrvRet _ _ => mkOs (os_streams s) [] (os_fails s) true
+  | Emit S2C t id (KClose _ _) _ =>
+      match oget (t, id) (os_streams s) with
+      | Some o => mkOs (oset (mkO (o_key o) (o_q o) false) (os_streams s)) (os_q s) (os_fails s) (os_dead s)
+      | None => s
+      end
+  | Emit S2C t id (KWu n) _ =>
+      match oget (t, id) (os_streams s) with
+      | Some o =>
+          if negb (o_live o) then s else
+          let q := drop_zeros (length (rq_items (o_q o))) (o_q o) in
+          match rq_dequeue nid q with
+          | (q', DeqItem x c) =>
+              let s' := mkOs (oset (mkO (o_key o) q' true) (os_streams s)) (os_q s) (os_fails s) (os_dead s) in
+              if N.eqb c n then s' else mkOs (os_streams s') (os_q s') (os_fails s' ++ fl 612 act id (Z.of_N n)) (os_dead s')
+          | _ => mkOs (os_streams s) (os_q s) (os_fails s ++ fl 612 act id (Z.of_N n)) (os_dead s)
+          end
+      | None => s
+      end
+  | Deliver C2S t 1 =>
+      match os_q s with
+      | [] => s
+      | (t', (id, k)) :: rest =>
+          let s := mkOs (os_streams s) rest (os_fails s) (os_dead s) in
+          if os_dead s then s else
+          match k with
+          | KNew _ _ rev _ _ =>
+              if (rev =? 0)%Z then s
+              else match oget (t', id) (os_streams s) with
+                   | Some _ => s
+                   | None => mkOs (oset (mkO (t', id) (rq_init N init_window) true) (os_streams s)) (os_q s) (os_fails s) (os_dead s)
+                   end
+          | KMsg _ len | KMore len =>
+              match oget (t', id) (os_streams s) with
+              | Some o =>
+                  if negb (o_live o) then s else
+                  match rq_accept nid (o_q o) len with
+                  | (q', AccOk) =>
+                      let s' := mkOs (oset (mkO (o_key o) q' true) (os_streams s)) (os_q s) (os_fails s) (os_dead s) in
+                      if closed_with 8 act t' id tr then mkOs (os_streams s') (os_q s') (os_fails s' ++ fl 611 act id 1) (os_dead s') else s'
+                  | (_, AccDropped) => s
+                  | (_, AccOverrun) =>
+                      let s' := mkOs (oset (mkO (o_key o) (o_q o) false) (os_streams s)) (os_q s) (os_fails s) (os_dead s) in
+                      if closed_with 8 act t' id tr then s' else mkOs (os_streams s') (os_q s') (os_fails s' ++ fl 611 act id 0) (os_dead s')
+                  end
+              | None => s
+              end
+          | KHalf =>
+              match oget (t', id) (os_streams s) with
+              | Some o => mkOs (oset (mkO (o_key o) (rq_close (o_q o)) (o_live o)) (os_streams s)) (os_q s) (os_fails s) (os_dead s)
+              | None => s
+              end
+          | KCancel | KNil =>
+              match oget (t', id) (os_streams s) with
+              | Some o => mkOs (oset (mkO (o_key o) (o_q o) false) (os_streams s)) (os_q s) (os_fails s) (os_dead s)
+              | None => s
+              end
+          | _ => s
+          end
+      end
+  | _ => s
+  end.
+
+(* handler deadlines / cancellations finish a stream without a wire event the monitor could
+   order reliably, so scenarios with handler deadlines are left to the other monitors *)
+Definition mon_overrun (c : cfg) (tr : trace) : list failure :=
+  if c_raws c || negb (expect_fc c) then []
+  else if existsb (fun e => match snd e with HStart _ _ _ (Some _) _ _ _ => true | _ => false end) tr then []
+  else os_fails (fold_left (overrun_step tr) tr (mkOs [] [] [] false)).
